@@ -1,4 +1,5 @@
 import HavocVerif.Lemmas.Events
+import HavocVerif.Gen.SrcLines
 import HavocVerif.Model.Locks
 import HavocVerif.Gen.CallSeq
 /-
@@ -495,6 +496,37 @@ theorem dead_operator_same_log (ops : List HubOp) (d : Nat) :
 /-! ### regenerated facts: the per-client lock and the write deadline -/
 
 open Gen.LockFacts in
+/-- regenerated from cmd/server/teamserver.go on every run: `EventAppend` records under the list's mutex everything
+    whose one-shot flag is not exactly "true" (`record`), and `SendAllPackagesToNewClient` replays a COPY of the
+    retained list taken under the mutex and sends after releasing it (`login_replay`: the newcomer's replay is the list
+    as it was at that moment, whatever is recorded or pruned meanwhile; a stalled newcomer holds no lock) -/
+theorem record_and_replay_transcribed :
+    Gen.SrcLines.eventAppend =
+      [
+       "EventAppend(event packager.Package) []packager.Package",
+       "t.EventsListMtx.Lock()",
+       "defer t.EventsListMtx.Unlock()",
+       "if event.Head.Event == 0 { return t.EventsList }",
+       "if event.Head.OneTime != \"true\" { t.EventsList = append(t.EventsList, event) return append(t.EventsList, event) }",
+       "return nil"] ∧
+    Gen.SrcLines.sendAllPackagesToNewClient =
+      [
+       "SendAllPackagesToNewClient(ClientID string)",
+       "t.EventsListMtx.Lock()",
+       "Packages := append([]packager.Package(nil), t.EventsList...)",
+       "t.EventsListMtx.Unlock()",
+       "for _, Package := range Packages { err := t.SendEvent(ClientID, Package) if err != nil { logger.Error(\"error while sending info to client(\"+ClientID+\"): \", err) return } }",
+       "for _, demon := range t.Agents.Agents { if demon.Active == false { continue } pk := t.EventNewDemon(demon) err := t.SendEvent(ClientID, pk) if err != nil { logger.Error(\"error while sending info to client(\"+ClientID+\"): \", err) return } }"] :=
+  ⟨rfl, rfl⟩
+
+/-- regenerated (`Gen.TableWrites`): an `append(T[:i], …)` moves elements inside T's backing array even when its result
+    is not stored back into T.  The only such expression on a shared table is the return value of `EventRemove`
+    (it would drop a second retained event and duplicate the last one), and `EventRemove` is called from nowhere:
+    no reachable code damages the retained list that way. -/
+theorem detached_appends_unreachable :
+    (Gen.TableWrites.detachedAppends.all fun (f, _) => f == "server/Teamserver.EventRemove") = true ∧
+    Gen.TableWrites.detachedCallers = [] := by decide
+
 /-- regenerated (`Gen.TableWrites`): every assignment to these tables anywhere in the teamserver is an append at the end,
     a delete of one index, the hand-out split, `nil` / an empty literal, or a slice built up freshly in a local - never a
     re-slice to length 0 or a filter in place, whose later appends would overwrite what an earlier reader still holds.
